@@ -945,7 +945,7 @@ def names_in_play(payload):
         elif c == "s":
             out.append(o[2])
         elif c == "D":
-            out += dec_names(o[3]) or []
+            out += [""] + (dec_names(o[3]) or [])      # surplus columns / a short names list give unnamed curves
     return out
 
 
